@@ -67,6 +67,8 @@ def random_pdas(n, seed):
                          [rnd.choice(["Z", "X", "Y"]) for _ in range(rnd.choice([0, 0, 1, 1, 2, 3]))]])
         for _ in range(rnd.randint(0, 2)):
             hist.append(["add_final_state", rnd.choice(["q0", "q1", "q2"])])
+        if len(out) % 12 == 7:       # a PDA that was never given a start state / start stack symbol accepts nothing
+            hist = [c for c in hist if c[0] != ("set_start_state", "set_start_stack_symbol")[len(out) // 12 % 2]]
         out.append(hist)
     return out
 
@@ -91,6 +93,8 @@ def generate(tier, seed, work, stats):
     for i, c in enumerate(c08.grammar_cases(tier, seed, work, stats, gfam, [("upper", "ab")])):
         # every third grammar with variables whose values equal terminal values (to_pda keeps them apart with a prefix)
         cases.append(dict(kind="cfg", prods=c["prods"], vpool="clash" if i % 3 == 2 else "upper", tpool="ab", family=c["family"]))
+        if i % 11 == 5:     # a grammar object without start symbol: the PDA accepts nothing
+            cases.append(dict(kind="cfg", prods=c["prods"], vpool="upper", tpool="ab", family=c["family"] + "-no-start-symbol", nostart=True))
         if i % 4 == 1:      # integer variables next to terminals that are the same digits as strings (PDA.to_cfg numbers its variables)
             cases.append(dict(kind="cfg", prods=c["prods"], vpool="int0", tpool="digits", family=c["family"] + "-digit-names"))
     for c in cases:
@@ -130,7 +134,7 @@ def replay(case):
         if pdah.project(p) != P:
             evs.append({"op": "build", "P": pdah.project(p), "spec": spec, "after": True})
     else:
-        g, start, tagged = cfgh.make(case["prods"], case["vpool"], case["tpool"])
+        g, start, tagged = cfgh.make(case["prods"], case["vpool"], case["tpool"], nostart=bool(case.get("nostart")))
         G = cfgh.project(g)
         tm = cfgh.TERM_POOLS[case["tpool"]]
         words = pdah.words_upto([tm["a"], tm["b"]], Lw)
